@@ -4,7 +4,7 @@ Coq term of Model/PyScope.v, and a few static helpers used by the monitors.
 expr: ['none'] ['bool',b] ['int',n] ['str',s] ['name',x] ['bin',op,a,b] (op: add|eq|lt)
       ['list',[e..]] ['lam',[ps],body,[args]] ['comp',elt,[[x,it]..]] ['walrus',x,e]
       ['call',f,[args]] ['attr',e,a] ['append',l,x]
-stmt: ['assign',x,e] ['aug',x,e] ['import',m] ['from',m,n,a] ['def',f,[ps],body]
+stmt: ['assign',x,e] ['aug',x,e] ['import',a.b.c] ['importas',a.b.c,m] ['from',a.b,n,a] ['def',f,[ps],body]
       ['class',c,[[a,e]..]] ['save',[names],[[k,e]..]] ['expr',e] ['del',x]
 value (context / heap items): None | bool | int | str | {'ref': i}   (i = index into case['heap'])
 """
@@ -63,6 +63,8 @@ def render_stmt(s):
         return f'{s[1]} += {render(s[2])}'
     if t == 'import':
         return f'import {s[1]}'
+    if t == 'importas':
+        return f'import {s[1]} as {s[2]}'
     if t == 'from':
         return f'from {s[1]} import {s[2]}' + (f' as {s[3]}' if s[3] != s[2] else '')
     if t == 'def':
@@ -132,6 +134,8 @@ def coq_stmt(s):
         return f'(SAug {coq_str(s[1])} {coq_expr(s[2])})'
     if t == 'import':
         return f'(SImport {coq_str(s[1])})'
+    if t == 'importas':
+        return f'(SImportAs {coq_str(s[1])} {coq_str(s[2])})'
     if t == 'from':
         return f'(SFrom {coq_str(s[1])} {coq_str(s[2])} {coq_str(s[3])})'
     if t == 'def':
@@ -160,6 +164,10 @@ def coq_value(v):
         return f'(PStr {coq_str(v)})'
     if isinstance(v, dict) and 'ref' in v:
         return f'(PRef {coq_nat(v["ref"])})'
+    if isinstance(v, dict) and 'nat' in v:
+        return f'(PNative {coq_str(v["nat"])})'
+    if isinstance(v, dict) and 'mod' in v:
+        return f'(PModule {coq_str(v["mod"])})'
     raise ValueError(f'bad value {v!r}')
 
 
@@ -302,7 +310,9 @@ def block_names(block):
         if t in ('assign', 'aug'):
             assigned.add(s[1])
         elif t == 'import':
-            imported.add(s[1])
+            imported.add(s[1].split('.')[0])
+        elif t == 'importas':
+            imported.add(s[2])
         elif t == 'from':
             imported.add(s[3])
         elif t == 'def':
@@ -318,3 +328,48 @@ def block_names(block):
                 elif x[0] == 'lam':
                     loops |= set(x[1])
     return assigned, imported, defs, classes, loops
+
+
+# ---------------------------------------------------------------- the module table (mirrors PyScope.v)
+
+STD_MODS = [
+    ['math', [['gcd', {'nat': 'math.gcd'}]]],
+    ['c14_mod', [['K', 7], ['S', 'seven']]],
+    ['os', [['path', {'mod': 'posixpath'}], ['sep', '/']]],
+    ['os.path', [['<self>', {'mod': 'posixpath'}], ['sep', '/']]],
+    ['posixpath', [['sep', '/']]],
+    ['urllib', []],
+    ['urllib.parse', [['quote', {'nat': 'urllib.parse.quote'}]]],
+    ['xml', []],
+    ['xml.dom', [['XHTML_NAMESPACE', 'http://www.w3.org/1999/xhtml']]],
+    ['xml.dom.minidom', [['parseString', {'nat': 'xml.dom.minidom.parseString'}]]],
+]
+
+
+def pkg_files(P):
+    """the throw-away package a case may import: relative path -> source"""
+    return {f'{P}/__init__.py': 'TOP = 1\n', f'{P}/other.py': "NAME = 'other'\n",
+            f'{P}/sub/__init__.py': 'SUBC = 2\n', f'{P}/sub/mod.py': "CONST = 40\nWORD = 'leaf'\n"}
+
+
+def pkg_mods(P):
+    return [[P, [['TOP', 1]]], [f'{P}.other', [['NAME', 'other']]], [f'{P}.sub', [['SUBC', 2]]],
+            [f'{P}.sub.mod', [['CONST', 40], ['WORD', 'leaf']]]]
+
+
+def case_mods(case):
+    return STD_MODS + (pkg_mods(case['pkg']) if case.get('pkg') else [])
+
+
+def coq_mods(mods):
+    return coq_list([f'({coq_str(m)}, {coq_ns(attrs)})' for m, attrs in mods])
+
+
+def stmt_binding_name(s):
+    if s[0] == 'import':
+        return s[1].split('.')[0]
+    if s[0] == 'importas':
+        return s[2]
+    if s[0] == 'from':
+        return s[3]
+    return None
